@@ -222,6 +222,8 @@ def observed_form(value):
     """what a user gets out of `.value`, in comparable form"""
     if isinstance(value, LabMem):
         return ['mem', value.payload]
+    if isinstance(value, _Figure):
+        return ['fig', value.axes[0].get_title() if value.axes else None]
     if isinstance(value, Path):
         if value.is_dir():
             return {'__dir__': {str(p.relative_to(value)): p.read_bytes().decode('latin-1') for p in sorted(value.rglob('*')) if p.is_file()}}
@@ -239,6 +241,8 @@ def encode(kind: str, h: str):
     """the value a task of data kind `kind` returns for descriptor hash h (shared by runtime and reference model)"""
     if kind == 'json_len':
         return {'prov': h, 'kind': 'json_len'}
+    if kind == 'figure':
+        return ['fig', h]          # a matplotlib figure whose title carries the provenance (built in lab_run)
     if kind == 'json_dict':
         return {'prov': h, 'kind': kind, 'nested': {'l': [1, 2.5, None]}}
     if kind == 'json_list':
@@ -281,10 +285,13 @@ def expected_vdigest(kind: str, h: str) -> str:
     return H(tcanon(v))
 
 
+from matplotlib.figure import Figure as _Figure      # (taskchain.data imports matplotlib anyway)
+
+
 RETURN_TYPES = {
     'json_dict': dict, 'json_list': list, 'str': str, 'int': int, 'numpy': np.ndarray, 'pandas': pd.DataFrame,
     'generator': Generator, 'lazy': list, 'listnp': list, 'dir': DirData, 'continues': ContinuesData, 'memory': LabMem,
-    'empty_gen': Generator, 'empty_listnp': list, 'empty_dir': DirData, 'dir_link': DirData, 'json_len': dict,
+    'empty_gen': Generator, 'empty_listnp': list, 'empty_dir': DirData, 'dir_link': DirData, 'json_len': dict, 'figure': _Figure,
 }
 DATA_CLASS = {'lazy': GeneratedDataLazy, 'listnp': ListOfNumpyData, 'empty_listnp': ListOfNumpyData, 'json_len': LabJsonLen}
 
@@ -380,6 +387,13 @@ def lab_run(task, spec, args):
                     raise LabFault(f'{full} generator fault uid={uid}')
                 yield item
         return gen()
+    if kind == 'figure':
+        import matplotlib.pyplot as plt
+        fig = plt.figure(figsize=(2, 1.5))
+        ax = fig.add_subplot()
+        ax.plot([0, 1], [0, 1])
+        ax.set_title(value[1])
+        return fig
     if kind == 'dir_link':
         data = task.get_data_object()
         (data.dir / 'prov.txt').write_text(value['prov.txt'])
